@@ -367,8 +367,9 @@ def _mem_prop(prop_id, tier, seed):
 def c08(tier, seed, **kw):
     res = _mem_prop("C08", tier, seed)
     # guest accesses: every instruction form with a memory operand placed at / across area edges
+    sweep = instr_gen.generate_edge_sweep(harnesses()["release"], seed)
     g = instr_check("C08", tier, seed, gen_filter=lambda c: c["placement"] in ("edge", "start", "rw", "rwx", "ro"),
-                    with_hw=False, n_override=4000 if tier == "quick" else 60000)
+                    with_hw=False, n_override=4000 if tier == "quick" else 60000, extra_cases=sweep)
     res["violations"] = res.get("violations", []) + g.get("violations", [])
     res["broken"] = res.get("broken", []) + g.get("broken", [])
     res.setdefault("extra", {})["guest_access_cases"] = g.get("cases", 0)
@@ -869,7 +870,7 @@ def gen_fuzz_cases(seed, n):
 @prop("C19")
 def c19(tier, seed, **kw):
     # (1) the structured single-instruction stream, (2) uniform / prefix-structured byte strings of length 1..15
-    res = instr_check("C19", tier, seed, with_hw=False)
+    res = instr_check("C19", tier, seed, with_hw=False, extra_cases=instr_gen.generate_edge_sweep(harnesses()["release"], seed + 19))
     n = 4000 if tier == "quick" else 200000
     lines = gen_fuzz_cases(seed, n)
     ncases, bad = tie_run(lines, "C19-fuzz")
